@@ -96,6 +96,18 @@ fn run_history(a: &Args, tag: &'static str, idx: u64, acc: &mut Acc) {
             // 2. error classes: demanded for a target missing from an existing directory and for occupied create_dir
             let single_missing = class == Class::Absent && dclass.map(|d| d == Class::Absent).unwrap_or(true);
             let occupied_create = matches!(op, Op::CreateDir(_)) && class.exists();
+            // an existing target must never be reported as not-found by one backend only (single-path calls; the
+            // transfer operations take different routes on the two backends and are compared on success/failure)
+            let existing_target_not_found = op.dest().is_none() && class.exists() && (em.kind.class3() == "NotFound") != (ep.kind.class3() == "NotFound");
+            if existing_target_not_found && !em.is_handle_io() && !ep.is_handle_io() {
+                acc.violate(Violation {
+                    property: "C02",
+                    signature: format!("errclass-existing-target|{}|{}|mem:{}|phys:{}", op.name(), clsig, em.kind.class3(), ep.kind.class3()),
+                    summary: format!("{} on an existing {}: MemoryFS fails with {} but PhysicalFS with {}", op.render(), clsig, em.kind.name(), ep.kind.name()),
+                    detail: detail(J::Null),
+                    order,
+                });
+            }
             if (single_missing || occupied_create) && !em.is_handle_io() && !ep.is_handle_io() && em.kind.class3() != ep.kind.class3() {
                 acc.violate(Violation {
                     property: "C02",
